@@ -17,6 +17,9 @@ import (
 	"sync"
 	"testing"
 
+	"golang.org/x/net/http2"
+	"golang.org/x/net/http2/h2c"
+
 	"github.com/tsenart/vegeta/v12/internal/simrt"
 	vegeta "github.com/tsenart/vegeta/v12/lib"
 )
@@ -66,7 +69,8 @@ func acEnsureServers() {
 	}
 	for i := range acServers {
 		i := i
-		acServers[i] = httptest.NewServer(http.HandlerFunc(func(w http.ResponseWriter, req *http.Request) {
+		// the servers speak HTTP/1.1 and HTTP/2 without TLS (h2c, prior knowledge) on the same port
+		acServers[i] = httptest.NewServer(h2c.NewHandler(http.HandlerFunc(func(w http.ResponseWriter, req *http.Request) {
 			b, _ := io.ReadAll(req.Body)
 			acMu.Lock()
 			n := 5 + (len(acLog)*37)%400
@@ -76,7 +80,7 @@ func acEnsureServers() {
 			if req.Method != "HEAD" {
 				w.Write(bytes.Repeat([]byte{byte('a' + i)}, n))
 			}
-		}))
+		}), &http2.Server{}))
 		simCleanups = append(simCleanups, acServers[i].Close)
 	}
 }
@@ -219,6 +223,12 @@ func runAttackCmd(t *simrt.Tape, keep bool, prop string) simrt.Outcome {
 	if t.Prob(1, 4) {
 		groups = append(groups, []string{"-chunked"})
 	}
+	useH2C := t.Prob(1, 4)
+	if useH2C {
+		// HTTP/2 without TLS: one connection carries all requests; the address mapping and the DNS cache apply to
+		// its dial all the same
+		groups = append(groups, []string{"-h2c"})
+	}
 	// flags in a tape-chosen order; repeated flags keep their relative order
 	var args []string
 	{
@@ -250,7 +260,7 @@ func runAttackCmd(t *simrt.Tape, keep bool, prop string) simrt.Outcome {
 			args = append(args, groups[gi]...)
 		}
 	}
-	r.log.Addf("targets=%d format=%s lazy=%v keepalive=%v repl=%d defhdr=%d defbody=%v", n, format, lazy, keepalive, nrepl, len(defHdr), defBody != nil)
+	r.log.Addf("targets=%d format=%s lazy=%v keepalive=%v repl=%d defhdr=%d defbody=%v h2c=%v", n, format, lazy, keepalive, nrepl, len(defHdr), defBody != nil, useH2C)
 
 	// ---- run ---------------------------------------------------------------
 	acMu.Lock()
@@ -417,7 +427,7 @@ func runAttackCmd(t *simrt.Tape, keep bool, prop string) simrt.Outcome {
 		}
 		mappedServers = append(mappedServers, s.server)
 	}
-	if !keepalive && nrepl == 2 {
+	if !keepalive && nrepl == 2 && !useH2C {
 		// one connection per request: consecutive dials to the mapped address must rotate
 		for i := 1; i < len(mappedServers); i++ {
 			if mappedServers[i] == mappedServers[i-1] {
